@@ -41,9 +41,9 @@ TRUSTED = ["accuracy reference: exact rational Gauss-Jordan in Python fractions.
 def key(A): return tuple(tuple(r) for r in A)
 
 
-@functools.lru_cache(maxsize=4096)
+@functools.lru_cache(maxsize=8192)
 def exact(Ak):
-    """(det, inverse or None) of a square matrix of doubles, exactly"""
+    """(det, inverse or None) of a square matrix (doubles or Fractions), exactly"""
     n = len(Ak)
     M = [[Fraction(x) for x in row] + [Fraction(int(i == j)) for j in range(n)] for i, row in enumerate(Ak)]
     det = Fraction(1)
@@ -73,7 +73,12 @@ def perm_abs(A):
     return dp.get((1 << n) - 1, 0.0) if n else 1.0
 
 
-def fro(M): return math.sqrt(sum(float(x) ** 2 for r in M for x in r))
+def pow2(e): return Fraction(2) ** e
+def fro2(M): return sum((Fraction(x) ** 2 for r in M for x in r), Fraction(0))
+def fsqrt(q):
+    """sqrt of a non-negative Fraction as a float (the argument is O(1) wherever this is used)"""
+    try: return math.sqrt(q)
+    except OverflowError: return math.inf
 
 
 def fprod(A, B):
@@ -89,13 +94,99 @@ def fprod(A, B):
     return out
 
 
-def kappa(A):
-    d, inv = exact(key(A))
-    if inv is None: return math.inf
-    return fro(A) * fro(inv)
+DBL_MIN_NORMAL = pow2(-1022)
+
+
+class Ctx:
+    """Everything the clauses need about one square matrix of doubles.  All scale-free quantities are computed on the
+    matrix normalised by the power of two 2^e of its largest entry (exact), so that they do not depend on the scale:
+      ds, invs  exact determinant and inverse of the normalised matrix   (d = ds*2^(e*n), M^-1 = invs*2^-e)
+      relb      DET_SLACK * perm(|A|) of the normalised matrix: the rounding allowance of the Laplace sum, relative to the scale
+      kappa     ||M||_F ||M^-1||_F"""
+    def __init__(s, A):
+        s.A = A; n = s.n = len(A)
+        s.finite = all(math.isfinite(x) for r in A for x in r)
+        amax = max([abs(x) for r in A for x in r if math.isfinite(x)] or [0.0])
+        s.e = math.frexp(amax)[1] if amax else 0
+        sc = pow2(-s.e)
+        s.AF = [[(Fraction(x) * sc if math.isfinite(x) else Fraction(0)) for x in r] for r in A]
+        s.ds, s.invs = exact(key(s.AF))
+        s.Af = [[float(x) for x in r] for r in s.AF]
+        s.perm = perm_abs(s.Af); s.relb = DET_SLACK * s.perm
+        s.d = s.ds * pow2(s.e * n)
+        s.amax = Fraction(amax)
+        nz = [abs(x) for r in A for x in r if x != 0 and math.isfinite(x)]
+        amin = Fraction(min(nz)) if nz else Fraction(1)
+        nf = math.factorial(n)
+        # a priori: every intermediate quantity of the Laplace recursion is a sum of at most n! products of at most n entries
+        s.overflow_possible = any(nf * s.amax ** k >= pow2(1023) for k in range(1, n + 1))
+        s.underflow_possible = any(amin ** k < pow2(-1021) for k in range(1, n + 1))
+        # each of the at most n!*n operations may lose up to one quantum 2^-1074 to underflow, amplified by at most n-1 further factors
+        s.uf = nf * n * pow2(-1074) * max(Fraction(1), s.amax) ** max(0, n - 1)
+        s.bound = Fraction(s.relb) * pow2(s.e * n) + s.uf       # |Determinant() - d| allowed
+        s.singular = s.invs is None
+        s.near_singular = (not s.singular) and abs(s.ds) <= Fraction(4 * s.relb)     # not distinguishable from singular at working precision (scale-free)
+        s.kappa = math.inf if s.singular else fsqrt(fro2(s.AF) * fro2(s.invs))
+        s.det_subnormal = (not s.singular) and abs(s.d) < DBL_MIN_NORMAL
+
+    def fl(s, q):
+        try: return float(q)
+        except OverflowError: return math.inf if q > 0 else -math.inf
+
+
+_ctx_cache = {}
+def ctx_of(A):
+    k = key(A)
+    c = _ctx_cache.get(k)
+    if c is None:
+        if len(_ctx_cache) > 4096: _ctx_cache.clear()
+        c = _ctx_cache[k] = Ctx(A)
+    return c
+
+
+def kappa(A): return ctx_of(A).kappa
 
 
 def small_int(A): return all(x == int(x) and abs(x) <= 9 for r in A for x in r)
+
+
+def small_int_scaled(A):
+    """2^k times a matrix of integers of magnitude <= 9: every operation of Determinant/Inverse on it is exact up to that power of two"""
+    nz = [abs(x) for r in A for x in r if x != 0]
+    if not nz: return True
+    if not all(math.isfinite(x) for x in nz): return False
+    m = min(nz); u = 2.0 ** (math.frexp(m)[1] - 5)          # m >= 16*u, so every entry that is an integer multiple of u^... is tested below
+    for cand in (math.ldexp(1.0, math.frexp(m)[1] - 1 - t) for t in range(4)):     # unit = 2^k with m/unit in {1..15}
+        if all((x / cand) == int(x / cand) and abs(x / cand) <= 9 for x in nz): return True
+    return False
+
+
+def pow2_multiple(r1, r2):
+    """r1 = +-2^k * r2 exactly, entry by entry (includes equal rows)"""
+    f = None
+    for x, y in zip(r1, r2):
+        if (x == 0) != (y == 0): return False
+        if x == 0: continue
+        q = Fraction(x) / Fraction(y)
+        if f is None:
+            a = abs(q)
+            if a.numerator != 1 and a.denominator != 1: return False
+            if (a.numerator & (a.numerator - 1)) or (a.denominator & (a.denominator - 1)): return False
+            f = q
+        elif q != f: return False
+    return f is not None
+
+
+def structure_exact(A):
+    """exactly singular matrices on which the elimination of Inverse() meets an exactly vanishing pivot whatever the entries are:
+    a zero row or column stays zero, and of two rows that are equal up to a factor +-2^k one is cleared exactly (ratio +-2^k,
+    a - 1*a = 0) as soon as the other becomes the pivot row; likewise 2^k times a small-integer matrix (all operations exact)"""
+    n = len(A)
+    if not all(math.isfinite(x) for r in A for x in r): return False
+    if small_int_scaled(A): return True
+    if any(all(x == 0 for x in r) for r in A): return True
+    if any(all(A[i][j] == 0 for i in range(n)) for j in range(n)): return True
+    return any(pow2_multiple(A[i], A[j]) for i in range(n) for j in range(i + 1, n))
 
 
 # ---------------------------------------------------------------- generators
@@ -134,7 +225,7 @@ def gen_matrix(rng, n, kind):
         return A
     if kind == "tiny-minor":
         A = [[U() for _ in range(n)] for _ in range(n)]; A[0][0] = rng.choice([1e-20, -1e-20, 1e-16, 3e-19])
-        if n > 2 and rng.random() < 0.5: A[1][1] = A[1][0] * A[0][1] / A[0][0] if False else A[1][1]; A[1][0] = 1e-20 * rng.uniform(1, 9)
+        if n > 2 and rng.random() < 0.5: A[1][0] = 1e-20 * rng.uniform(1, 9)
         return A
     if kind in ("upper", "lower"):
         A = [[(U() if (j >= i if kind == "upper" else j <= i) else 0.0) for j in range(n)] for i in range(n)]
@@ -158,13 +249,46 @@ def gen_matrix(rng, n, kind):
         if how < 0.3: A[i] = list(A[j])
         elif how < 0.55:
             k = rng.choice([x for x in range(n) if x != i] or [j]); a, b = rng.randint(-1, 1), rng.choice([-1, 1])
-            A[i] = [max(-9, min(9, a * A[j][c] + b * A[k][c])) if False else a * A[j][c] + b * A[k][c] for c in range(n)]
+            A[i] = [a * A[j][c] + b * A[k][c] for c in range(n)]
             if not small_int(A): A[i] = list(A[j])
         elif how < 0.7: A[i] = [0.0] * n
         elif how < 0.85:
             for r in range(n): A[r][i] = 0.0
         else:
             for r in range(n): A[r][i] = A[r][j]
+        return A
+    if kind == "rank-deficient-real":
+        # exactly singular as doubles although no entry is an integer or a short dyadic number: the Laplace sum of such a
+        # matrix is a rounding residue, not 0.  Structures: equal rows, a row +-2^k times another, a zero row / column
+        # (the elimination then meets an exactly vanishing pivot), equal columns, a column 2^k times another, a row that is
+        # the exactly representable sum / difference of two others (entries on a 2^-q grid)
+        if n == 1: return [[0.0]]
+        A = [[U() for _ in range(n)] for _ in range(n)]
+        i, j = rng.sample(range(n), 2); how = rng.randrange(8)
+        s = rng.choice([-1.0, 1.0]) * 2.0 ** rng.randint(-6, 6)
+        if how == 0: A[i] = list(A[j])
+        elif how == 1: A[i] = [s * x for x in A[j]]
+        elif how == 2: A[i] = [0.0] * n
+        elif how == 3:
+            for r in range(n): A[r][i] = 0.0
+        elif how == 4:
+            for r in range(n): A[r][i] = A[r][j]
+        elif how == 5:
+            for r in range(n): A[r][i] = s * A[r][j]
+        else:
+            q = 2.0 ** -rng.choice([4, 8, 20, 30])
+            A = [[round(x / q) * q for x in row] for row in A]
+            k = rng.choice([x for x in range(n) if x not in (i, j)] or [j])
+            A[i] = [A[j][c] + (A[k][c] if how == 6 else -A[k][c]) for c in range(n)]
+        return A
+    if kind == "near-singular":
+        # two rows (or columns) that agree to a relative distance on the ladder 1e-12 .. 1e-3
+        if n == 1: return [[U()]]
+        A = [[U() for _ in range(n)] for _ in range(n)]
+        i, j = rng.sample(range(n), 2); dl = 10.0 ** -rng.uniform(3, 12)
+        if rng.random() < 0.5: A[i] = [x * (1 + dl * rng.uniform(-1, 1)) for x in A[j]]
+        else:
+            for r in range(n): A[r][i] = A[r][j] * (1 + dl * rng.uniform(-1, 1))
         return A
     if kind == "graded":
         g1, g2 = rng.uniform(0, 8), 0.0
@@ -183,19 +307,166 @@ def gen_matrix(rng, n, kind):
 
 
 KINDS = ["dense", "dense", "dense-int", "perm", "signed-perm", "scaled-perm", "zero-minor", "zero-minor", "tiny-minor", "upper", "lower",
-         "tri-int", "diag", "symmetric", "rank-deficient", "rank-deficient", "graded", "graded", "graded", "hilbert", "vandermonde"]
+         "tri-int", "diag", "symmetric", "rank-deficient", "rank-deficient", "rank-deficient-real", "rank-deficient-real", "near-singular",
+         "graded", "graded", "graded", "hilbert", "vandermonde"]
+# the families that are also run at extreme scales (entries times 2^k): the property does not depend on the unit of the entries
+SCALED_KINDS = ["dense", "dense-int", "signed-perm", "scaled-perm", "diag", "symmetric", "upper", "zero-minor", "graded", "rank-deficient",
+                "rank-deficient-real"]
+# exponents (base 2) at which the determinant of the scaled matrix is aimed: well inside the range, at both ends of the normal
+# range (2^-1022, 2^1024), inside and at both ends of the subnormal range (2^-1074), and beyond (underflow to 0 / overflow)
+DET_EXPONENTS = [-1300, -1150, -1090, -1078, -1075, -1074, -1073, -1070, -1060, -1040, -1025, -1023, -1022, -1021, -1019, -1000, -900, -600, -300,
+                 300, 600, 900, 1000, 1015, 1020, 1022, 1023, 1024, 1025, 1030, 1060, 1150, 1300]
+MAX_SCALE_EXP = 900       # |k| <= 900: with a dynamic range below 2^40 inside the matrix, M and M^-1 stay far inside the normal range
 
 
-def inv_case(A, kind):
-    n = len(A); d, inv = exact(key(A))
-    tol = None
-    if inv is not None:
-        k = fro(A) * fro(inv); xm = max(abs(float(x)) for r in inv for x in r)
-        tol = (1e-9, C_INV * n * k * EPS * xm)
-    return Case(f"inverse {mtab(A)}", ("inverse", kind, f"n={n}"), tol=tol)
+def scale_mat(A, k): return [[math.ldexp(x, k) for x in r] for r in A]
 
 
-def det_tol(A): return (1e-9, DET_SLACK * perm_abs(A))
+def scaled_variant(rng, A, et=None):
+    """A * 2^k with k chosen so that det(A) * 2^(k*n) has a binary exponent near `et` (a random entry of DET_EXPONENTS)"""
+    n = len(A); c = ctx_of(A)
+    et = rng.choice(DET_EXPONENTS) if et is None else et
+    ld = 0 if c.singular else (math.frexp(c.fl(abs(c.ds)))[1] + c.e * n)
+    k = round((et - ld) / n) + rng.choice([0, 0, 0, -1, 1, -2, 2])
+    k = max(-MAX_SCALE_EXP, min(MAX_SCALE_EXP, k))
+    return scale_mat(A, k), k
+
+
+def inv_case(A, kind, extra_tags=()):
+    n = len(A); tol = None
+    if all(len(r) == n for r in A):
+        c = ctx_of(A)
+        if not c.singular and math.isfinite(c.kappa):
+            xm = c.fl(max(abs(x) for r in c.invs for x in r) * pow2(-c.e))
+            tol = (1e-9, C_INV * n * c.kappa * EPS * xm)
+    return Case(f"inverse {mtab(A)}", ("inverse", kind, f"n={n}") + tuple(extra_tags), tol=tol)
+
+
+def det_tol(A):
+    if any(len(r) != len(A) for r in A): return None
+    c = ctx_of(A)
+    return (1e-9, c.fl(c.bound))
+
+
+# ---- call histories on one object
+QUERIES = ["det", "det", "invertible", "inverse", "orthogonal", "copydet", "transdet", "subdet"]
+UPDATES = ["add", "add", "sub", "sub", "set", "swap", "assignm", "assign", "resize", "delrow+delcol", "add-singular", "add-regular", "add-zero"]
+
+
+def sim_update(A, st):
+    """the entries after one update step (None = the step terminates the process); mirrors the C++ semantics independently of the model"""
+    m = len(A); nc = len(A[0]) if A else 0
+    op = st[0]
+    if op in ("add", "sub"):
+        B = st[1]
+        if len(B) != m or (len(B[0]) if B else 0) != nc: return None
+        return [[(x + y) if op == "add" else (x - y) for x, y in zip(ra, rb)] for ra, rb in zip(A, B)]
+    if op == "set":
+        i, j, v = st[1:]
+        if i >= m or j >= nc: return None
+        R = [list(r) for r in A]; R[i][j] = v; return R
+    if op == "swap":
+        i, j = st[1:]
+        if i >= m or j >= m: return None
+        R = [list(r) for r in A]; R[i], R[j] = R[j], R[i]; return R
+    if op == "assignm": return [list(r) for r in st[1]]
+    if op == "assign": return [[st[3]] * st[2] for _ in range(st[1])]
+    if op == "resize":
+        r, c = st[1:]
+        return [[(A[i][j] if i < m and j < nc else 0.0) for j in range(c)] for i in range(r)]
+    if op == "delrow":
+        if st[1] >= m: return None
+        return [list(r) for k, r in enumerate(A) if k != st[1]]
+    if op == "delcol":
+        if st[1] >= nc: return None
+        return [[x for k, x in enumerate(r) if k != st[1]] for r in A]
+    raise ValueError(op)
+
+
+def step_text(st):
+    op = st[0]
+    if op in ("add", "sub", "assignm"): return f"{op} {mtab(st[1])}"
+    if op in ("set", "assign"): return f"{op} {st[1]} {st[2]} {hx(st[3])}"
+    return " ".join([op] + [str(x) for x in st[1:]])
+
+
+def is_square(A): return len(A) > 0 and all(len(r) == len(A) for r in A)
+
+
+def safe_for_inverse(A):
+    if not is_square(A): return False
+    c = ctx_of(A)
+    return (not c.singular) and abs(c.ds) > Fraction(1e3 * c.relb)
+
+
+def gen_seq(rng, n, kind):
+    """one object, 3..9 calls: queries interleaved with every kind of update; the generator follows the entries so that only
+    the last call may be one that has to terminate the process"""
+    A = gen_matrix(rng, n, kind); n = len(A)
+    cur = [list(r) for r in A]; steps = []
+    L = rng.randint(3, 9)
+    intish = small_int(A)
+    V = (lambda: float(rng.randint(-5, 5))) if intish else (lambda: rng.choice([-1, 1]) * rng.uniform(0.1, 1) * 10 ** rng.uniform(-1, 1))
+    def new_mat(m, sing=None):
+        while True:
+            B = gen_matrix(rng, m, "dense-int" if intish else "dense") if sing is None else gen_matrix(rng, m, "rank-deficient" if sing else "dense-int")
+            if sing is None or ctx_of(B).singular == sing: return B
+    def query():
+        q = rng.choice(QUERIES)
+        sq = is_square(cur)
+        if q == "inverse" and not safe_for_inverse(cur): q = "invertible"
+        if q == "orthogonal" and not safe_for_inverse(cur): q = "det"
+        if q == "subdet":
+            if sq and len(cur) >= 2: return ("subdet", rng.randrange(len(cur)), rng.randrange(len(cur)))
+            q = "det"
+        if q in ("det", "copydet", "transdet") and not sq: q = "invertible"
+        return (q,)
+    def update():
+        u = rng.choice(UPDATES); m = len(cur); nc = len(cur[0]) if cur else 0
+        if m == 0 or nc == 0 or m != nc: return [("assignm", new_mat(max(1, n)))]
+        if u in ("add", "sub"): return [(u, new_mat(m))]
+        if u == "add-zero": return [(rng.choice(["add", "sub"]), [[0.0] * m for _ in range(m)])]
+        if u in ("add-singular", "add-regular"):
+            # the entries become a prescribed singular / regular integer matrix: B = target - current, exact for small integers
+            T = new_mat(m, sing=(u == "add-singular"))
+            if small_int(cur): return [("add", [[t - x for t, x in zip(rt, rx)] for rt, rx in zip(T, cur)])]
+            return [("assignm", T)]
+        if u == "set": return [("set", rng.randrange(m), rng.randrange(m), V())]
+        if u == "swap": return [("swap", rng.randrange(m), rng.randrange(m))]
+        if u == "assignm": return [("assignm", new_mat(rng.choice([m, m, max(1, m - 1), min(7, m + 1)])))]
+        if u == "assign": return [("assign", m, m, V())] + [("set", i, i, V()) for i in range(m)]
+        if u == "resize":
+            if m < 6 and rng.random() < 0.6: return [("resize", m + 1, m + 1), ("set", m, m, V())]
+            if m > 1: return [("resize", m - 1, m - 1)]
+            return [("resize", m + 1, m + 1)]
+        if u == "delrow+delcol":
+            if m > 1:
+                a, b = ("delrow", rng.randrange(m)), ("delcol", rng.randrange(m))
+                return [a, b] if rng.random() < 0.5 else [b, a]
+            return [("set", 0, 0, V())]
+        raise ValueError(u)
+    # first a query (fills whatever the object may remember), then update / query alternation with repeats
+    steps.append(query())
+    while len(steps) < L:
+        if rng.random() < 0.55:
+            for st in update():
+                cur = sim_update(cur, st); steps.append(st)
+            steps.append(query())
+            if rng.random() < 0.3: steps.append(steps[-1])          # the same query again
+        else:
+            steps.append(query())
+    tags = ["seq", kind, f"n={n}"]
+    r = rng.random()
+    if r < 0.12:          # a last call that must (or may) terminate: Inverse of what has become singular / non-square, Determinant of non-square
+        w = rng.randrange(4)
+        if w == 0 and is_square(cur) and small_int(cur) and len(cur) >= 2:
+            T = new_mat(len(cur), sing=True)
+            steps.append(("add", [[t - x for t, x in zip(rt, rx)] for rt, rx in zip(T, cur)])); steps.append(("inverse",))
+        elif w == 1 and len(cur) >= 2: steps.append(("delrow", 0)); steps.append((rng.choice(["det", "inverse"]),))
+        elif w == 2: steps.append(("resize", len(cur) + 1, len(cur))); steps.append((rng.choice(["det", "inverse", "invertible"]),))
+        else: steps.append(("inverse",))
+        tags.append("last-call-may-exit")
+    return Case(f"seq {mtab(A)} {len(steps)} " + " ".join(step_text(st) for st in steps), tuple(tags))
 
 
 def generate(rng, tier):
@@ -219,6 +490,22 @@ def generate(rng, tier):
                         P = fprod(A, B)
                         cs.append(Case(f"det_laws {mtab(A)} {mtab(B)}", ("det-law", "multiplicative+transpose", kind),
                                        tol=(1e-9, max(det_tol(A)[1], det_tol(B)[1], det_tol(P)[1]))))
+    # the same families at extreme scales: entries * 2^k, k aimed at the ends of the double range for the determinant
+    for n in range(1, 8):
+        ets = list(DET_EXPONENTS); rng.shuffle(ets)
+        per = (len(ets) if big else 7) if n >= 2 else 3
+        for t in range(per * (3 if big else 1)):
+            kind = rng.choice(SCALED_KINDS)
+            A0 = gen_matrix(rng, n, kind)
+            A, k = scaled_variant(rng, A0, ets[t % len(ets)])
+            tg = (f"scale=2^{100 * round(k / 100)}",)
+            cs.append(inv_case(A, kind, tg))
+            cs.append(Case(f"det {mtab(A)}", ("det", kind, f"n={n}") + tg, tol=det_tol(A)))
+            cs.append(Case(f"invertible {mtab(A)}", ("invertible", kind) + tg, tol=det_tol(A)))
+    # call histories on one object
+    for n in range(1, 8):
+        for _ in range((40 if big else 8) * (2 if 3 <= n <= 5 else 1)):
+            cs.append(gen_seq(rng, n, rng.choice(["dense", "dense-int", "dense-int", "symmetric", "upper", "signed-perm", "rank-deficient", "zero-minor", "graded"])))
     # the witnesses of the defects fixed earlier, and hand-picked pivoting situations
     for A in ([[0.0, 1.0], [1.0, 0.0]], [[1e-20, 1.0], [1.0, 1.0]], [[0.0, 0.0, 1.0], [0.0, 1.0, 0.0], [1.0, 0.0, 0.0]],
               [[1.0, 2.0, 3.0], [2.0, 4.0, 6.0], [1.0, 0.0, 1.0]], [[1.0, 1.0], [1.0, 1.0]], [[0.0]], [[5.0]], [[-0.0]],
@@ -244,93 +531,225 @@ def generate(rng, tier):
 # ---------------------------------------------------------------- parsing
 class Rd:
     def __init__(s, line): s.t = line.split(); s.i = 1; s.op = s.t[0]
+    def word(s): s.i += 1; return s.t[s.i - 1]
     def int(s): s.i += 1; return int(s.t[s.i - 1])
     def num(s): s.i += 1; return tokf(s.t[s.i - 1])
     def list(s): n = s.int(); return [s.num() for _ in range(n)]
     def table(s): n = s.int(); return [s.list() for _ in range(n)]
+    def step(s):
+        w = s.word()
+        if w in ("add", "sub", "assignm"): return (w, s.table())
+        if w in ("set", "assign"): return (w, s.int(), s.int(), s.num())
+        if w in ("swap", "resize", "subdet"): return (w, s.int(), s.int())
+        if w in ("delrow", "delcol"): return (w, s.int())
+        return (w,)
 
 
-def parse_mat(io):
-    t = io.split()
-    if not t or t[0] != "M": return None
-    r, c = int(t[1]), int(t[2]); v = [tokf(x) for x in t[3:]]
-    return [v[i * c:(i + 1) * c] for i in range(r)]
+def take_mat(t, p):
+    """tokens `M r c x..` at position p -> (matrix or None, next position)"""
+    if p + 2 >= len(t) + 0 and not (p + 2 < len(t)): return None, len(t)
+    if t[p] != "M": return None, len(t)
+    r, c = int(t[p + 1]), int(t[p + 2]); v = [tokf(x) for x in t[p + 3:p + 3 + r * c]]
+    if len(v) != r * c: return None, len(t)
+    return [v[i * c:(i + 1) * c] for i in range(r)], p + 3 + r * c
+
+
+def parse_mat(io): return take_mat(io.split(), 0)[0]
 
 
 def leading_minor_small(A):
-    """a zero or tiny leading principal minor (relative to ||M||^k)"""
-    n = len(A); nm = fro(A) or 1.0
+    """a zero or tiny leading principal minor (relative to ||M||^k); scale-free: evaluated on the normalised matrix"""
+    c = ctx_of(A); n = len(A); nm = fsqrt(fro2(c.AF)) or 1.0
     for k in range(1, n):
-        d, _ = exact(key([row[:k] for row in A[:k]]))
-        if abs(float(d)) < 1e-8 * nm ** k: return True
+        d, _ = exact(key([row[:k] for row in c.AF[:k]]))
+        if abs(d) < Fraction(1e-8 * nm ** k): return True
     return False
 
 
 def nontrivial(c, io):
     r = Rd(c.line); A = r.table()
     if any(len(row) != len(A) for row in A): return True
-    if r.op == "det_laws": return True
-    d, inv = exact(key(A))
-    if inv is None: return True
-    return kappa(A) > 1e4 or leading_minor_small(A)
+    if r.op in ("det_laws", "seq"): return True
+    cx = ctx_of(A)
+    if cx.singular: return True
+    return cx.kappa > 1e4 or leading_minor_small(A) or cx.det_subnormal or cx.overflow_possible
 
 
-# ---------------------------------------------------------------- S4
+# ---------------------------------------------------------------- S4: the clauses, on one (matrix, answer) pair
+def sfx(c): return ":det-below-normal-range" if c.det_subnormal else ""
+
+
+def clause_det(A, g):
+    """Determinant() = g for the square matrix A"""
+    c = ctx_of(A); n = c.n; out = []
+    if not c.finite or c.overflow_possible: return out        # a product of entries may exceed the double range: no rounding model
+    if not math.isfinite(g):
+        out.append(("value", f"Determinant = {g!r}, exact {c.fl(c.d)!r}")); return out
+    if not abs(Fraction(g) - c.d) <= c.bound:
+        out.append(("value", f"Determinant = {g!r}, exact {c.fl(c.d)!r} (allowed rounding {c.fl(c.bound):.3g})"))
+    if all(A[i][j] == 0 for i in range(n) for j in range(i)) or all(A[i][j] == 0 for i in range(n) for j in range(i + 1, n)):
+        pd = functools.reduce(lambda a, b: a * b, [Fraction(A[i][i]) for i in range(n)], Fraction(1))
+        if not abs(Fraction(g) - pd) <= c.bound:
+            out.append(("triangular", f"Determinant of a triangular matrix = {g!r}, product of the diagonal = {c.fl(pd)!r}"))
+    return out
+
+
+def clause_invertible(A, flag, g=None):
+    """Invertible() = flag (and Determinant() = g of the same object, when asked)"""
+    c = ctx_of(A); out = []
+    if g is not None and flag != int(g != 0): out.append(("iff-det-nonzero", f"Invertible() = {flag} while Determinant() = {g!r}"))
+    if not c.finite: return out
+    if c.singular and small_int_scaled(A) and not c.overflow_possible and not c.underflow_possible and flag != 0:
+        out.append(("singular", "exactly singular integer matrix reported invertible"))
+    if (not c.singular) and (not c.near_singular) and flag != 1:
+        out.append(("regular" + sfx(c), f"matrix with determinant {c.fl(c.d)!r} (condition number {c.kappa:.3g}) reported not invertible"))
+    return out
+
+
+def clause_inverse(A, ex, X):
+    """Inverse() of the square matrix A terminated (ex) or returned X"""
+    c = ctx_of(A); n = c.n; out = []
+    if not c.finite: return out
+    if c.singular:
+        if not ex:
+            if structure_exact(A): out.append(("singular", "exactly singular matrix: Inverse returned numbers instead of terminating with a diagnostic"))
+            else: out.append(("singular:rounded-residue", "exactly singular matrix (determinant and pivot are rounding residues): Inverse returned numbers instead of terminating with a diagnostic"))
+        return out
+    if c.near_singular: return out      # not distinguishable from singular at working precision
+    if ex:
+        out.append(("regular" + sfx(c), f"invertible matrix (det {c.fl(c.d)!r}, condition number {c.kappa:.3g}) : Inverse terminated the process")); return out
+    if X is None or len(X) != n or any(len(row) != n for row in X): out.append(("shape", "Inverse is not an n x n matrix")); return out
+    if any(math.isnan(x) or math.isinf(x) for row in X for x in row): out.append(("finite", "Inverse contains inf/nan")); return out
+    k = c.kappa; sc = pow2(c.e)
+    XF = [[Fraction(x) * sc for x in row] for row in X]; AF = c.AF; inv = c.invs      # normalised: XF ~ invs
+    ninv2 = fro2(inv)
+    e1 = fro2([[XF[i][j] - inv[i][j] for j in range(n)] for i in range(n)])
+    left = fro2([[sum(XF[i][t] * AF[t][j] for t in range(n)) - (i == j) for j in range(n)] for i in range(n)])
+    right = fro2([[sum(AF[i][t] * XF[t][j] for t in range(n)) - (i == j) for j in range(n)] for i in range(n)])
+    lim = C_INV * n * k * EPS
+    if not e1 <= Fraction(lim) ** 2 * ninv2: out.append(("accuracy", f"||X - M^-1|| / ||M^-1|| = {fsqrt(e1 / ninv2):.3g} exceeds {C_INV:g}*n*kappa*eps = {lim:.3g} (n={n}, kappa={k:.3g})"))
+    if not left <= Fraction(lim) ** 2: out.append(("left-residual", f"||X*M - 1|| = {fsqrt(left):.3g} exceeds {C_INV:g}*n*kappa*eps = {lim:.3g} (kappa={k:.3g})"))
+    if not right <= Fraction(lim * k) ** 2: out.append(("right-residual", f"||M*X - 1|| = {fsqrt(right):.3g} exceeds {C_INV:g}*n*kappa^2*eps = {lim * k:.3g} (kappa={k:.3g})"))
+    return out
+
+
+def exit_status(A, q):
+    """for the query q on an object with entries A: 'must' terminate, 'may' terminate, or None"""
+    sq = is_square(A)
+    if q[0] in ("det", "copydet", "transdet"): return None if sq else "must"
+    if q[0] == "subdet":
+        if q[1] >= len(A) or q[2] >= (len(A[0]) if A else 0): return "must"
+        S = [[x for k, x in enumerate(r) if k != q[2]] for i, r in enumerate(A) if i != q[1]]
+        return None if (len(S) == 0 or is_square(S)) and (len(S) > 0 or len(A) == 1) else "must"
+    if q[0] == "invertible": return None
+    if not sq: return "must" if q[0] == "inverse" else None
+    c = ctx_of(A)
+    if not c.finite: return "may"
+    if q[0] == "inverse":
+        if c.singular: return "must" if structure_exact(A) else "may"
+        return "may" if c.near_singular else None
+    if q[0] == "orthogonal": return "may" if (c.singular or c.near_singular) else None
+    return None
+
+
+def predicates_seq(r, io):
+    out = []
+    def bad(clause, msg): out.append((f"seq:{clause}", msg))
+    A = r.table(); k = r.int(); steps = [r.step() for _ in range(k)]
+    ex = io.startswith("EXIT"); t = io.split(); p = 0
+    cur = A
+    for idx, st in enumerate(steps):
+        where = f"call {idx + 1} ({st[0]})"
+        if st[0] in ("add", "sub", "set", "swap", "assignm", "assign", "resize", "delrow", "delcol"):
+            nxt = sim_update(cur, st)
+            if nxt is None:
+                if not ex: bad("guard", f"{where}: request outside the shape of the matrix did not terminate with a diagnostic")
+                return out
+            if not ex:
+                if p >= len(t) or t[p] != "U": bad("shape", f"{where}: unexpected output"); return out
+                p += 1
+            cur = nxt; continue
+        es = exit_status(cur, st)
+        if ex:
+            if es: return out          # this call is entitled to terminate the process
+            continue
+        if es == "must":
+            sq = is_square(cur)
+            bad("non-square" if not sq else "singular", f"{where}: {'non-square' if not sq else 'exactly singular'} matrix: numbers instead of terminating with a diagnostic"); return out
+        if p >= len(t): bad("shape", f"{where}: output missing"); return out
+        tag = t[p]; p += 1
+        if st[0] in ("det", "copydet", "transdet", "subdet"):
+            if tag != "D" or p + 2 > len(t): bad("shape", f"{where}: unexpected output"); return out
+            a, b = t[p], t[p + 1]; p += 2
+            if a != b: bad("history", f"{where}: the object with this call history answers {tokf(a)!r}, a new object with the same entries answers {tokf(b)!r}")
+            T = cur
+            if st[0] == "transdet": T = [[cur[i][j] for i in range(len(cur))] for j in range(len(cur))]
+            if st[0] == "subdet": T = [[x for kk, x in enumerate(rw) if kk != st[2]] for i, rw in enumerate(cur) if i != st[1]]
+            if len(T) >= 1:
+                for cl, msg in clause_det(T, tokf(a)): bad(cl, f"{where}: {msg}")
+        elif st[0] in ("invertible", "orthogonal"):
+            if tag != "F" or p + 2 > len(t): bad("shape", f"{where}: unexpected output"); return out
+            a, b = t[p], t[p + 1]; p += 2
+            if a != b: bad("history", f"{where}: the object with this call history answers {a}, a new object with the same entries answers {b}")
+            if st[0] == "invertible":
+                if not is_square(cur):
+                    if a != "0": bad("non-square", f"{where}: Invertible() of a non-square matrix is not false")
+                else:
+                    for cl, msg in clause_invertible(cur, int(a)): bad(cl, f"{where}: {msg}")
+        elif st[0] == "inverse":
+            if tag != "X": bad("shape", f"{where}: unexpected output"); return out
+            X1, p1 = take_mat(t, p); X2, p2 = take_mat(t, p1)
+            if X1 is None or X2 is None: bad("shape", f"{where}: unexpected output"); return out
+            if t[p:p1] != t[p1:p2]: bad("history", f"{where}: Inverse() of the object with this call history differs from Inverse() of a new object with the same entries")
+            p = p2
+            for cl, msg in clause_inverse(cur, False, X1): bad(cl, f"{where}: {msg}")
+    if ex:
+        # no call of the history was entitled to terminate
+        sub = any(is_square(S) and ctx_of(S).det_subnormal for S in [A])
+        bad("regular", "the process terminated although every call of the history is defined (square, invertible where Inverse is asked)")
+    return out
+
+
 def predicates(c, io):
     if io.startswith(("CRASH", "SANITIZER", "TIMEOUT", "HARNESSERR")): return []
     r = Rd(c.line); op = r.op; out = []
     def bad(clause, msg): out.append((f"{op}:{clause}", msg))
+    if op == "seq": return predicates_seq(r, io)
     ex = io.startswith("EXIT")
     A = r.table(); m = len(A); square = all(len(row) == m for row in A)
     if not square:
         if op in ("det", "inverse") and not ex: bad("non-square", f"{op} of a {m}x{len(A[0])} matrix returned numbers instead of terminating with a diagnostic")
         if op == "invertible" and io.split()[:1] != ["0"]: bad("non-square", "Invertible() of a non-square matrix is not false")
         return out
-    n = m; d, inv = exact(key(A)); bound = DET_SLACK * perm_abs(A) + 1e-300
+    n = m; cx = ctx_of(A)
     if op == "det":
         if ex: bad("defined", "Determinant of a square matrix terminated the process"); return out
-        g = tokf(io.split()[0])
-        if not abs(Fraction(g) - d) <= Fraction(bound): bad("value", f"Determinant = {g!r}, exact {float(d)!r} (allowed rounding {bound:.3g})")
-        if all(A[i][j] == 0 for i in range(n) for j in range(i)) or all(A[i][j] == 0 for i in range(n) for j in range(i + 1, n)):
-            pd = functools.reduce(lambda a, b: a * b, [Fraction(A[i][i]) for i in range(n)], Fraction(1))
-            if not abs(Fraction(g) - pd) <= Fraction(bound): bad("triangular", f"Determinant of a triangular matrix = {g!r}, product of the diagonal = {float(pd)!r}")
+        for cl, msg in clause_det(A, tokf(io.split()[0])): bad(cl, msg)
     elif op == "invertible":
         if ex: bad("defined", "Invertible() terminated the process"); return out
         t = io.split(); flag = int(t[0]); g = tokf(t[1])
-        if flag != int(g != 0): bad("iff-det-nonzero", f"Invertible() = {flag} while Determinant() = {g!r}")
-        if d == 0 and small_int(A) and flag != 0: bad("singular", "exactly singular integer matrix reported invertible")
-        if abs(float(d)) > 4 * bound and flag != 1: bad("regular", f"matrix with determinant {float(d)!r} reported not invertible")
+        for cl, msg in clause_invertible(A, flag, g): bad(cl, msg)
     elif op == "det_swap":
         i, j = r.int(), r.int()
         if ex: bad("defined", "Determinant terminated the process"); return out
         g1, g2 = [tokf(x) for x in io.split()[:2]]
-        if not abs(Fraction(g1) - d) <= Fraction(bound): bad("value", f"Determinant = {g1!r}, exact {float(d)!r}")
-        if not abs(Fraction(g2) + d) <= Fraction(bound): bad("row-swap", f"after exchanging rows {i},{j} the determinant is {g2!r}, expected {-float(d)!r}")
+        for cl, msg in clause_det(A, g1): bad(cl, msg)
+        B = [list(rw) for rw in A]; B[i], B[j] = B[j], B[i]
+        if not cx.overflow_possible and cx.finite:
+            if not (math.isfinite(g2) and abs(Fraction(g2) + cx.d) <= cx.bound): bad("row-swap", f"after exchanging rows {i},{j} the determinant is {g2!r}, expected {cx.fl(-cx.d)!r}")
     elif op == "det_laws":
         B = r.table()
         if ex: bad("defined", "Determinant terminated the process"); return out
         dA, dB, dAB, dAt = [tokf(x) for x in io.split()[:4]]
-        dBe, _ = exact(key(B)); P = fprod(A, B); dP, _ = exact(key(P))
-        if not abs(Fraction(dAt) - d) <= Fraction(bound): bad("transpose", f"det(A^T) = {dAt!r}, exact det(A) = {float(d)!r}")
-        if not abs(Fraction(dAB) - dP) <= Fraction(DET_SLACK * perm_abs(P) + 1e-300): bad("product-value", f"det(A*B) = {dAB!r}, exact determinant of the product formed = {float(dP)!r}")
+        cb = ctx_of(B); P = fprod(A, B); cp = ctx_of(P)
+        if cx.overflow_possible or cb.overflow_possible or cp.overflow_possible or not (cx.finite and cb.finite and cp.finite): return out
+        if not all(math.isfinite(x) for x in (dA, dB, dAB, dAt)): bad("value", "a determinant is not finite"); return out
+        if not abs(Fraction(dAt) - cx.d) <= cx.bound: bad("transpose", f"det(A^T) = {dAt!r}, exact det(A) = {cx.fl(cx.d)!r}")
+        if not abs(Fraction(dAB) - cp.d) <= cp.bound: bad("product-value", f"det(A*B) = {dAB!r}, exact determinant of the product formed = {cp.fl(cp.d)!r}")
         absP = [[sum(abs(A[i][k] * B[k][j]) for k in range(n)) for j in range(n)] for i in range(n)]
-        mb = DET_SLACK * n * perm_abs(absP) + 1e-300
-        if not abs(Fraction(dAB) - d * dBe) <= Fraction(mb): bad("multiplicative", f"det(A*B) = {dAB!r}, det(A)*det(B) = {float(d * dBe)!r} (allowed {mb:.3g})")
+        mb = DET_SLACK * n * perm_abs(absP) + float(cp.uf)
+        if not abs(Fraction(dAB) - cx.d * cb.d) <= Fraction(mb): bad("multiplicative", f"det(A*B) = {dAB!r}, det(A)*det(B) = {cx.fl(cx.d * cb.d)!r} (allowed {mb:.3g})")
     elif op == "inverse":
-        if inv is None:
-            if small_int(A) and not ex: bad("singular", "exactly singular matrix: Inverse returned numbers instead of terminating with a diagnostic")
-            return out
-        if abs(float(d)) <= 4 * bound: return out      # not distinguishable from singular at working precision
-        if ex: bad("regular", f"invertible matrix (det {float(d)!r}) : Inverse terminated the process"); return out
-        X = parse_mat(io)
-        if X is None or len(X) != n or any(len(row) != n for row in X): bad("shape", "Inverse is not an n x n matrix"); return out
-        if any(math.isnan(x) or math.isinf(x) for row in X for x in row): bad("finite", "Inverse contains inf/nan"); return out
-        k = fro(A) * fro(inv); ninv = fro(inv)
-        XF = [[Fraction(x) for x in row] for row in X]; AF = [[Fraction(x) for x in row] for row in A]
-        e1 = fro([[XF[i][j] - inv[i][j] for j in range(n)] for i in range(n)])
-        left = fro([[sum(XF[i][t] * AF[t][j] for t in range(n)) - (i == j) for j in range(n)] for i in range(n)])
-        right = fro([[sum(AF[i][t] * XF[t][j] for t in range(n)) - (i == j) for j in range(n)] for i in range(n)])
-        if not e1 <= C_INV * n * k * EPS * ninv: bad("accuracy", f"||X - M^-1|| / ||M^-1|| = {e1 / ninv:.3g} exceeds {C_INV:g}*n*kappa*eps = {C_INV * n * k * EPS:.3g} (n={n}, kappa={k:.3g})")
-        if not left <= C_INV * n * k * EPS: bad("left-residual", f"||X*M - 1|| = {left:.3g} exceeds {C_INV:g}*n*kappa*eps = {C_INV * n * k * EPS:.3g} (kappa={k:.3g})")
-        if not right <= C_INV * n * k * k * EPS: bad("right-residual", f"||M*X - 1|| = {right:.3g} exceeds {C_INV:g}*n*kappa^2*eps = {C_INV * n * k * k * EPS:.3g} (kappa={k:.3g})")
+        X = None if ex else parse_mat(io)
+        for cl, msg in clause_inverse(A, ex, X): bad(cl, msg)
     return out
